@@ -659,3 +659,4 @@ class PipeClientInit(PipeInit):
 UNITS = [WriteRecord, ReadRecord, FramingLemma, ServerReceiving, ServerResponding, ClientReceiving, ClientSending, ClientEnqueue, ClientRequest, PipeInit, PipeClientInit]
 SCENARIOS = [('', 'replay/scenarios/c18_transports.py')]
 BOUNDED = [{'function': 'OS byte stream, asyncio task scheduling, multiprocessing.Connection over FIFOs', 'method': 'runtime scenario replay/scenarios/c18_transports.py', 'bound': '19 payload shapes up to 3 MiB, 120 concurrent requesters on 2 connections, 40 x 200 KB back-to-back, 3 timeout/id-reuse rounds, 200 pipe round trips', 'counted_as_proved': False}]
+THOROUGH_SCENARIOS = [('', 'replay/scenarios/c18_transports.py', (1,), 400), ('', 'replay/scenarios/c18_transports.py', (7,), 400)]
